@@ -6,7 +6,7 @@ Tie, part 2 (hand model + property oracle): random data and random method chains
 compared with the Python list operation applied to the full ordered result R.
 """
 import itertools, random
-from pony.orm import Database, Required, Optional, Set, PrimaryKey, left_join, rollback, db_session, select, count, sum as psum, min as pmin, max as pmax, avg, group_concat, desc, raw_sql
+from pony.orm import Database, Required, Optional, Set, PrimaryKey, left_join, exists, rollback, db_session, select, count, sum as psum, min as pmin, max as pmax, avg, group_concat, desc, raw_sql
 from pony.orm import core
 from pony.orm.sqltranslation import combine_limit_and_offset
 
@@ -326,6 +326,7 @@ def extra_oracle(ctx):
         with db_session:
             allT = sorted(T2.select()[:], key=lambda t: t.id2)
             state['rows'] = [(t.id2, t.a, t.b, t.g and t.g.id) for t in allT]
+            state['grows'] = sorted((g.id, g.k) for g in G2.select())
             # --- grouped source (GROUP BY cannot be folded): R = [(a, count)] ordered by a descending
             grouped = {}
             for t in allT: grouped[t.a] = grouped.get(t.a, 0) + 1
@@ -386,7 +387,27 @@ def extra_oracle(ctx):
         for src, mk, pyf in [('select(t for t in T2 if count(t.g.ts) > 1)', lambda: select(t for t in T2 if count(t.g.ts) > 1), lambda t: t.g is not None and len(t.g.ts) > 1),
                              ('select(t for t in T2 if sum(t.g.ts.b) > 60)', lambda: select(t for t in T2 if psum(t.g.ts.b) > 60), lambda t: t.g is not None and sum(x.b for x in t.g.ts) > 60),
                              ('select(t for t in T2 if t.a > 0 and count(t.g.ts) == 1)', lambda: select(t for t in T2 if t.a > 0 and count(t.g.ts) == 1),
-                              lambda t: t.a > 0 and t.g is not None and len(t.g.ts) == 1)]:
+                              lambda t: t.a > 0 and t.g is not None and len(t.g.ts) == 1)] + [
+                # correlated subqueries, nested one to three levels deep; the levels in between do or do not mention the outer variable
+                ('select(t for t in T2 if exists(g for g in G2 if g == t.g and g.k > 0))',
+                 lambda: select(t for t in T2 if exists(g for g in G2 if g == t.g and g.k > 0)), lambda t: t.g is not None and t.g.k > 0),
+                ('select(t for t in T2 if not exists(t2 for t2 in T2 if t2.a > t.a))',
+                 lambda: select(t for t in T2 if not exists(t2 for t2 in T2 if t2.a > t.a)), lambda t: not any(t2.a > t.a for t2 in T2.select())),
+                ('select(t for t in T2 if exists(g for g in G2 if exists(t2 for t2 in T2 if t2.g == g and t2.a > t.a)))',
+                 lambda: select(t for t in T2 if exists(g for g in G2 if exists(t2 for t2 in T2 if t2.g == g and t2.a > t.a))),
+                 lambda t: any(any(t2.g == g and t2.a > t.a for t2 in T2.select()) for g in G2.select())),
+                ('select(t for t in T2 if exists(g for g in G2 if g.k <= t.a and exists(t2 for t2 in T2 if t2.g == g and t2.a > t.a)))',
+                 lambda: select(t for t in T2 if exists(g for g in G2 if g.k <= t.a and exists(t2 for t2 in T2 if t2.g == g and t2.a > t.a))),
+                 lambda t: any(g.k <= t.a and any(t2.g == g and t2.a > t.a for t2 in T2.select()) for g in G2.select())),
+                ('select(t for t in T2 if t.a in select(g.k for g in G2 if g.id in select(t2.g.id for t2 in T2 if t2.b > t.b)))',
+                 lambda: select(t for t in T2 if t.a in select(g.k for g in G2 if g.id in select(t2.g.id for t2 in T2 if t2.b > t.b))),
+                 lambda t: t.a in [g.k for g in G2.select() if g.id in [t2.g.id for t2 in T2.select() if t2.g is not None and t2.b > t.b]]),
+                ('select(t for t in T2 if exists(g for g in G2 if exists(t2 for t2 in T2 if t2.g == g and exists(t3 for t3 in T2 if t3.a == t2.a and t3.id2 < t.id2))))',
+                 lambda: select(t for t in T2 if exists(g for g in G2 if exists(t2 for t2 in T2 if t2.g == g and exists(t3 for t3 in T2 if t3.a == t2.a and t3.id2 < t.id2)))),
+                 lambda t: any(any(t2.g == g and any(t3.a == t2.a and t3.id2 < t.id2 for t3 in T2.select()) for t2 in T2.select()) for g in G2.select())),
+                ('select(t for t in T2 if count(t2 for t2 in T2 if t2.a == t.a and exists(g for g in G2 if g.k == t.a)) > 1)',
+                 lambda: select(t for t in T2 if count(t2 for t2 in T2 if t2.a == t.a and exists(g for g in G2 if g.k == t.a)) > 1),
+                 lambda t: len([t2 for t2 in T2.select() if t2.a == t.a and any(g.k == t.a for g in G2.select())]) > 1)]:
             with db_session:
                 before = {t.id2: bool(pyf(t)) for t in T2.select()}
                 sel = run(lambda: sorted(t.id2 for t in mk()))
@@ -396,8 +417,10 @@ def extra_oracle(ctx):
                 exp = sorted(i for i, s in before.items() if not s)
                 ctx.case(['bulk-delete-aggregate', src, n], kind='oracle:bulk-delete-aggregate')
                 if left != exp or cnt != len(before) - len(exp):
-                    ctx.violation('bulk delete of a query with an aggregate condition did not remove exactly the selected rows', {'query': src + '.delete(bulk=True)', 'before': before},
-                                  observed={'left': left, 'count': cnt}, expected={'left': exp, 'count': len(before) - len(exp)}, key='bulk-delete:aggregate-condition')
+                    ctx.violation('bulk delete of a query with an aggregate condition or a (nested) correlated subquery did not remove exactly the selected rows',
+                                  {'query': src + '.delete(bulk=True)', 'before': before, 'T2 rows (id2, a, b, g)': state.get('rows'), 'G2 rows (id, k)': state.get('grows')},
+                                  observed={'left': left, 'count': cnt}, expected={'left': exp, 'count': len(before) - len(exp)},
+                                  key='bulk-delete:aggregate-condition' if 'exists' not in src and ' in select' not in src else 'bulk-delete:correlated-subquery')
                 rollback()
         db.disconnect()
 
